@@ -67,6 +67,7 @@ type run struct {
 	mdKind   map[int]string // denom -> who wrote its bank metadata ("coin" / "erc")
 	dead     map[int]bool
 	seenIdx  map[string]bool
+	styleOf  map[int]style // raw test tokens: how they signal success / failure
 }
 
 func si(n int) sdkmath.Int { return sdkmath.NewInt(int64(n)) }
@@ -795,7 +796,11 @@ func (r *run) regerc(d int, aliases []int) {
 		if r.nextCt >= unknown-1 {
 			return
 		}
-		ct = r.deploy(d)
+		if r.rng.Intn(2) == 0 {
+			ct = r.deploys(d, allStyles[r.rng.Intn(len(allStyles))])
+		} else {
+			ct = r.deploy(d)
+		}
 	}
 	var al []string
 	for _, a := range aliases {
@@ -1093,7 +1098,7 @@ func TestC08(t *testing.T) {
 		s := hx.NewSuite(t, 1)
 		w := &bx.World{S: s, Height: s.Ctx.BlockHeight()}
 		r := &run{w: w, out: out, rng: rng, gov: authtypes.NewModuleAddress(govtypes.ModuleName).String(), contract: map[int]common.Address{}, ctOf: map[string]int{},
-			nextCt: 10, last: map[string]string{}, extOf: map[int]int{}, mdKind: map[int]string{}, dead: map[int]bool{}, seenIdx: map[string]bool{}}
+			nextCt: 10, last: map[string]string{}, extOf: map[int]int{}, mdKind: map[int]string{}, dead: map[int]bool{}, seenIdx: map[string]bool{}, styleOf: map[int]style{}}
 		for i := 0; i < 3; i++ {
 			u := helpers.NewSigner(helpers.NewEthPrivKey())
 			s.MintToken(u.AccAddress(), sdk.NewCoin(fxtypes.DefaultDenom, si(1000)))
@@ -1187,6 +1192,12 @@ func TestC08(t *testing.T) {
 			r.kill(ct6)
 			r.cerc(ct6, 1, 1, 5)
 			r.ccoin(6, 1, 1, 1)
+		}
+		if seq >= 1 && seq <= 2 {
+			// every signalling style of an externally-owned token, three per sequence, at the balance / escrow boundaries
+			for k := 0; k < 3; k++ {
+				r.styleScenario(3+k, allStyles[(seq-1)*3+k])
+			}
 		}
 		for i := 0; i < nOps; i++ {
 			r.randomOp()
